@@ -214,6 +214,16 @@ func GenCase(tape *sim.Tape, crashBias bool) *Case {
 		}
 	case "inplace-dir":
 		genDir(tape, t, "src", 1+tape.Draw(2), false, &counter)
+		if tape.Draw(4) == 0 {
+			// two siblings with the same very long stem: <name>.bak no longer fits into a
+			// file name (255 bytes); whatever the command does then, it must not lose a file
+			stem := strings.Repeat("n", 247+tape.Draw(5))
+			for _, ext := range []string{"css", "js"} {
+				counter++
+				data, _ := Content(tape, ext, false)
+				t.Entries = append(t.Entries, Entry{Path: "src/" + stem + "." + ext, Kind: KFile, Data: data, Mode: 0o644})
+			}
+		}
 		iv.Recursive = true
 		switch tape.Draw(5) {
 		case 0:
